@@ -1,6 +1,6 @@
 (* SpacesRun.v — runner for the binary64 instance of the spaces model (used by generated cases files) *)
 From Coq Require Import List Floats.
-From OmplV Require Import SpacesModel SpacesFloat.
+From OmplV Require Import SpacesModel SpacesFloat SamplersModel.
 Import ListNotations.
 Local Open Scope float_scope.
 
@@ -10,71 +10,11 @@ Fixpoint flat (a : fsv) : list float :=
   match a with L _ x => x | C _ xs => flat_map flat xs end.
 Definition b2f (b : bool) : float := if b then 1 else 0.
 
-(* leaf samplers with the variates taken from a tape (RNG hook): returns the state and the unused tape *)
-Definition take1 (tape : list float) : float * list float := match tape with u :: t => (u, t) | [] => (0, []) end.
-Fixpoint sample_uniform (sp : fspace) (tape : list float) : fsv * list float :=
-  match sp with
-  | RV _ bs => let n := length bs in (L FlA (rv_sample_uniform FlA bs (firstn n tape)), skipn n tape)
-  | SO2 _ => let '(u, t) := take1 tape in (L FlA [so2_sample_uniform FlA u], t)
-  | TimeB _ lo hi => let '(u, t) := take1 tape in (L FlA [uniform_real FlA lo hi u], t)
-  | TimeU _ => (L FlA [0], tape)
-  | Disc _ lo hi => let '(u, t) := take1 tape in
-                    let r := fl_floor (uniform_real FlA lo (hi + 1) u) in (L FlA [if hi <? r then hi else r], t)
-  | Comp _ subs =>
-    let '(vs, t) := (fix go (ss : list (float * fspace)) (tape : list float) : list fsv * list float :=
-                       match ss with
-                       | [] => ([], tape)
-                       | (_, s) :: ss' => let '(v, t1) := sample_uniform s tape in let '(vs, t2) := go ss' t1 in (v :: vs, t2)
-                       end) subs tape in (C FlA vs, t)
-  end.
-
-(* near / Gaussian sampling of the default samplers for every modelled space (CompoundStateSampler scales the
-   distance / deviation by weight / weightSum, or samples uniformly when that importance is below epsilon) *)
-Definition hd0f (l : list float) : float := match l with x :: _ => x | [] => 0 end.
-Definition wsum (subs : list (float * fspace)) : float := fold_left (fun acc ws => acc + fst ws) subs 0.
-Definition importance (wsumv w : float) : float := if wsumv <? feps FlA then 1 else w / wsumv.
-Definition uniform_int (lo hi u : float) : float :=
-  let r := fl_floor (uniform_real FlA lo (hi + 1) u) in if hi <? r then hi else r.
-Fixpoint sample_near (sp : fspace) (near : fsv) (dist : float) (tape : list float) : fsv * list float :=
-  match sp, near with
-  | RV _ bs, L _ x => let n := length bs in (L FlA (rv_sample_near FlA bs x dist (firstn n tape)), skipn n tape)
-  | SO2 _, L _ x => let '(u, t) := take1 tape in (L FlA [so2_sample_near FlA (hd0f x) dist u], t)
-  | TimeB _ _ _, L _ x | TimeU _, L _ x =>
-      let '(u, t) := take1 tape in (enforce FlA sp (L FlA [uniform_real FlA (hd0f x - dist) (hd0f x + dist) u]), t)
-  | Disc _ lo hi, L _ x =>
-      let '(u, t) := take1 tape in
-      let d := fl_floor (dist + 0.5) in (enforce FlA sp (L FlA [uniform_int (hd0f x - d) (hd0f x + d) u]), t)
-  | Comp _ subs, C _ xs =>
-      let ws := wsum subs in
-      let '(vs, t) := (fix go (ss : list (float * fspace)) (xs : list fsv) (tape : list float) : list fsv * list float :=
-                         match ss, xs with
-                         | (w, s) :: ss', x :: xs' =>
-                             let wi := importance ws w in
-                             let '(v, t1) := if feps FlA <? wi then sample_near s x (dist * wi) tape else sample_uniform s tape in
-                             let '(vs, t2) := go ss' xs' t1 in (v :: vs, t2)
-                         | _, _ => ([], tape)
-                         end) subs xs tape in (C FlA vs, t)
-  | _, _ => (near, tape)
-  end.
-Fixpoint sample_gauss (sp : fspace) (mean : fsv) (sd : float) (tape : list float) : fsv * list float :=
-  match sp, mean with
-  | RV _ bs, L _ x => let n := length bs in (L FlA (rv_sample_gauss FlA bs x sd (firstn n tape)), skipn n tape)
-  | SO2 _, L _ x => let '(g, t) := take1 tape in (L FlA [so2_sample_gauss FlA (hd0f x) sd g], t)
-  | TimeB _ _ _, L _ x | TimeU _, L _ x =>
-      let '(g, t) := take1 tape in (enforce FlA sp (L FlA [gaussian FlA (hd0f x) sd g]), t)
-  | Disc _ lo hi, L _ x =>
-      let '(g, t) := take1 tape in (enforce FlA sp (L FlA [fl_floor (gaussian FlA (hd0f x) sd g + 0.5)]), t)
-  | Comp _ subs, C _ xs =>
-      let ws := wsum subs in
-      let '(vs, t) := (fix go (ss : list (float * fspace)) (xs : list fsv) (tape : list float) : list fsv * list float :=
-                         match ss, xs with
-                         | (w, s) :: ss', x :: xs' =>
-                             let '(v, t1) := sample_gauss s x (sd * importance ws w) tape in
-                             let '(vs, t2) := go ss' xs' t1 in (v :: vs, t2)
-                         | _, _ => ([], tape)
-                         end) subs xs tape in (C FlA vs, t)
-  | _, _ => (mean, tape)
-  end.
+(* the default samplers: the arithmetic-generic definitions of SamplersModel.v (proved over R in SamplersReal.v),
+   instantiated with binary64 *)
+Definition sample_uniform (sp : fspace) (tape : list float) : fsv * list float := g_sample_uniform FlA sp tape.
+Definition sample_near (sp : fspace) (near : fsv) (dist : float) (tape : list float) : fsv * list float := g_sample_near FlA PrimFloat.div sp near dist tape.
+Definition sample_gauss (sp : fspace) (mean : fsv) (sd : float) (tape : list float) : fsv * list float := g_sample_gauss FlA PrimFloat.div sp mean sd tape.
 
 Inductive sop :=
 | ODist (a b : fsv) | OInterp (t : float) (a b : fsv) | OEnf (a : fsv) | OSat (a : fsv) | OEq (a b : fsv) | OExt
